@@ -456,6 +456,21 @@ Proof.
   rewrite G. reflexivity.
 Qed.
 
+Lemma parse_int64_zstr z : - two63z <= z < two63z -> parse_int 64 (zstr z) = Some z.
+Proof.
+  intros H. unfold parse_int. rewrite scan_zstr.
+  assert (G : (- 2 ^ (64 - 1) <=? z) && (z <? 2 ^ (64 - 1)) = true)
+    by (change (2 ^ (64 - 1)) with 9223372036854775808; unfold two63z in H; lia).
+  rewrite G. reflexivity.
+Qed.
+Lemma parse_int64_zstr_out z : ~ (- two63z <= z < two63z) -> parse_int 64 (zstr z) = None.
+Proof.
+  intros H. unfold parse_int. rewrite scan_zstr.
+  assert (G : (- 2 ^ (64 - 1) <=? z) && (z <? 2 ^ (64 - 1)) = false)
+    by (change (2 ^ (64 - 1)) with 9223372036854775808; unfold two63z in H; lia).
+  rewrite G. reflexivity.
+Qed.
+
 (* number of decimal digits of |z| *)
 Definition ndigits (z : Z) : Z := zlen (dec_of_N (Z.to_N (Z.abs z))).
 
@@ -511,7 +526,7 @@ Definition stage1 (inp : list N) : res (Z * list N) :=
   | Some (m, e) =>
     match e with
     | [] => Err
-    | _ => match parse_int 32 e with
+    | _ => match parse_int 64 e with
            | Some tmp => Ok (tmp, m)
            | None => Err
            end
@@ -519,13 +534,12 @@ Definition stage1 (inp : list N) : res (Z * list N) :=
   | None => Ok (0, inp)
   end.
 Definition parse_mant (exponent : Z) (inp1 : list N) : res dec :=
-  do '(exponent2, inp2) <-
+  let '(exponent2, inp2) :=
     match split_first is_dot inp1 with
-    | Some (ipart, fpart) =>
-      let e2 := wrap64 (exponent - wrap64 (zlen fpart)) in
-      if e2 <? min_i32 then Err else Ok (e2, ipart ++ fpart)
-    | None => Ok (exponent, inp1)
-    end;
+    | Some (ipart, fpart) => (wrap64 (exponent - wrap64 (zlen fpart)), ipart ++ fpart)
+    | None => (exponent, inp1)
+    end in
+  if (exponent2 <? min_i32) || (exponent2 >? max_i32) then Err else
   match set_string inp2 with
   | None => Err
   | Some n => Ok (new_decimal n (wrap32 exponent2) ((n =? 0) && starts_minus inp2))
@@ -660,12 +674,23 @@ Qed.
 Lemma stage1_noexp inp : Forall (fun x => is_dD x = false) inp -> stage1 inp = Ok (0, inp).
 Proof. intros H. unfold stage1. rewrite split_first_miss by exact H. reflexivity. Qed.
 
-Lemma stage1_exp a e : Forall (fun x => is_dD x = false) a -> min_i32 <= e <= max_i32 ->
+Lemma stage1_exp64 a e : Forall (fun x => is_dD x = false) a -> - two63z <= e < two63z ->
   stage1 (a ++ c_d :: zstr e) = Ok (e, a).
 Proof.
   intros Ha He. unfold stage1. rewrite split_first_hit by (auto; reflexivity).
   pose proof (zstr_nonnil e) as Hn. destruct (zstr e) eqn:Z; [congruence|]. rewrite <- Z.
-  rewrite parse_int32_zstr by exact He. reflexivity.
+  rewrite parse_int64_zstr by exact He. reflexivity.
+Qed.
+Lemma stage1_exp a e : Forall (fun x => is_dD x = false) a -> min_i32 <= e <= max_i32 ->
+  stage1 (a ++ c_d :: zstr e) = Ok (e, a).
+Proof. intros Ha He. apply stage1_exp64; [exact Ha|unfold min_i32, max_i32, two63z in *; lia]. Qed.
+(* a written exponent that does not fit int64 is an error *)
+Lemma stage1_exp_over a e : Forall (fun x => is_dD x = false) a -> ~ (- two63z <= e < two63z) ->
+  stage1 (a ++ c_d :: zstr e) = Err.
+Proof.
+  intros Ha He. unfold stage1. rewrite split_first_hit by (auto; reflexivity).
+  pose proof (zstr_nonnil e) as Hn. destruct (zstr e) eqn:Z; [congruence|]. rewrite <- Z.
+  rewrite parse_int64_zstr_out by exact He. reflexivity.
 Qed.
 
 Definition parsed (str : list N) (e : Z) : res dec :=
@@ -674,27 +699,48 @@ Definition parsed (str : list N) (e : Z) : res dec :=
   | Some n => Ok (new_decimal n (wrap32 e) ((n =? 0) && starts_minus str))
   end.
 
-Lemma parse_mant_nodot e str : plain str -> parse_mant e str = parsed str e.
-Proof. intros H. unfold parse_mant. rewrite split_first_miss by (apply plain_no_dot, H). reflexivity. Qed.
-
-(* the fraction digits lower the exponent in int64; below MinInt32 is an error, never a wrap *)
-Lemma parse_mant_dot e ip fp : plain ip -> min_i32 <= e <= max_i32 -> zlen fp < two63z - two31 ->
-  parse_mant e (ip ++ c_dot :: fp) =
-  if e - zlen fp <? min_i32 then Err else parsed (ip ++ fp) (e - zlen fp).
+(* no fraction part: the written exponent is the exponent of the value and is range-checked *)
+Lemma parse_mant_nodot_gen e str : plain str ->
+  parse_mant e str = if in_i32 e then parsed str e else Err.
 Proof.
-  intros H He Hl. unfold parse_mant. rewrite split_first_hit by (try apply plain_no_dot, H; reflexivity).
-  cbv zeta. assert (L0 : 0 <= zlen fp) by (unfold zlen; lia).
-  rewrite (wrap64_id (zlen fp)) by (unfold two63z, two31 in *; lia).
-  rewrite wrap64_id by (unfold min_i32, max_i32, two63z, two31 in *; lia).
-  destruct (e - zlen fp <? min_i32); reflexivity.
+  intros H. unfold parse_mant. rewrite split_first_miss by (apply plain_no_dot, H).
+  unfold in_i32. destruct (Z.ltb_spec e min_i32), (Z.gtb_spec e max_i32), (Z.leb_spec min_i32 e), (Z.leb_spec e max_i32);
+    try lia; reflexivity.
+Qed.
+Lemma parse_mant_nodot e str : plain str -> min_i32 <= e <= max_i32 -> parse_mant e str = parsed str e.
+Proof.
+  intros H He. rewrite parse_mant_nodot_gen by exact H.
+  replace (in_i32 e) with true by (unfold in_i32; lia). reflexivity.
 Qed.
 
-Lemma parse_mant_dot_ok e ip fp : plain ip -> min_i32 <= e <= max_i32 -> zlen fp <= two32 ->
-  min_i32 <= e - zlen fp ->
+(* the fraction digits lower the written exponent in int64; the result is range-checked (the exponent of
+   the value, not the written one); outside int32 is an error, never a wrap *)
+Lemma parse_mant_dot e ip fp : plain ip -> - two63z <= e < two63z -> zlen fp < two63z - two31 ->
+  parse_mant e (ip ++ c_dot :: fp) =
+  if in_i32 (e - zlen fp) then parsed (ip ++ fp) (e - zlen fp) else Err.
+Proof.
+  intros H He Hl. unfold parse_mant. rewrite split_first_hit by (try apply plain_no_dot, H; reflexivity).
+  assert (L0 : 0 <= zlen fp) by (unfold zlen; lia).
+  rewrite (wrap64_id (zlen fp)) by (unfold two63z, two31 in *; lia).
+  unfold in_i32.
+  destruct (Z.leb_spec min_i32 (e - zlen fp)) as [A|A]; [destruct (Z.leb_spec (e - zlen fp) max_i32) as [B|B]|];
+    cbn [andb].
+  - rewrite wrap64_id by (unfold min_i32, max_i32, two63z, two31 in *; lia).
+    destruct (Z.ltb_spec (e - zlen fp) min_i32), (Z.gtb_spec (e - zlen fp) max_i32); try lia. reflexivity.
+  - rewrite wrap64_id by (unfold min_i32, max_i32, two63z, two31 in *; lia).
+    destruct (Z.gtb_spec (e - zlen fp) max_i32); [|lia]. now rewrite orb_true_r.
+  - set (w := wrap64 (e - zlen fp)).
+    assert (W : w < min_i32 \/ w > max_i32).
+    { unfold w, wrap64, min_i32, max_i32, two63z, two64z, two31 in *. lia. }
+    destruct (Z.ltb_spec w min_i32), (Z.gtb_spec w max_i32); try lia; reflexivity.
+Qed.
+
+Lemma parse_mant_dot_ok e ip fp : plain ip -> - two63z <= e < two63z -> zlen fp <= two32 ->
+  min_i32 <= e - zlen fp <= max_i32 ->
   parse_mant e (ip ++ c_dot :: fp) = parsed (ip ++ fp) (e - zlen fp).
 Proof.
   intros H He Hl Hm. rewrite parse_mant_dot by (try assumption; unfold two63z, two31, two32 in *; lia).
-  destruct (Z.ltb_spec (e - zlen fp) min_i32); [lia|reflexivity].
+  replace (in_i32 (e - zlen fp)) with true by (unfold in_i32; lia). reflexivity.
 Qed.
 
 Lemma new_decimal_scale n e nz sc : min_i32 <= sc <= max_i32 -> wrap32 e = wrap32 (- sc) ->
@@ -729,13 +775,13 @@ Proof.
   { (* "nnn." *)
     rewrite dec_parse_unfold by apply app_cons_nonnil.
     rewrite stage1_noexp by (apply no_dD_dot_plain; [exact P|constructor]). cbn [bind].
-    rewrite parse_mant_dot_ok by (try assumption; unfold zlen, two32, min_i32; cbn [length]; lia).
+    rewrite parse_mant_dot_ok by (try assumption; unfold zlen, two32, two63z, min_i32, max_i32; cbn [length]; lia).
     rewrite app_nil_r. apply FIN. subst sc. reflexivity. }
   destruct (Z.ltb_spec sc 0) as [NEG|POS].
   { (* "nnn d ss" *)
     rewrite dec_parse_unfold by apply app_cons_nonnil.
     rewrite stage1_exp by (try apply plain_no_dD, P; apply wrap32_range). cbn [bind].
-    rewrite parse_mant_nodot by exact P. apply FIN.
+    rewrite parse_mant_nodot by (try exact P; apply wrap32_range). apply FIN.
     unfold wrap32, min_i32, max_i32, two31, two32 in *. lia. }
   pose proof (coef_len _ _ _ _ CT) as LEN. pose proof (coef_starts _ _ _ _ CT) as ST.
   assert (PFX : (if starts_minus str then 2 else 1) = zlen sgn + 1).
@@ -749,7 +795,7 @@ Proof.
     assert (SK : zlen (skipn (Z.to_nat (zlen str - sc)) str) = sc).
     { unfold zlen in *. rewrite skipn_length. lia. }
     rewrite parse_mant_dot_ok by (try assumption; try apply plain_firstn, P;
-                                  rewrite SK; unfold min_i32, max_i32, two32 in *; lia).
+                                  try rewrite SK; unfold min_i32, max_i32, two32, two63z in *; lia).
     rewrite firstn_skipn. apply FIN. rewrite SK. reflexivity. }
   (* "n.nnn d -ss" *)
   assert (E1 : firstn (Z.to_nat (zlen sgn + 1)) str = sgn ++ [c]).
@@ -765,13 +811,13 @@ Proof.
   destruct (Z.gtb_spec (zlen str) (zlen sgn + 1)) as [LONG|SHORT].
   - rewrite app_assoc. rewrite dec_parse_unfold by apply app_cons_nonnil.
     rewrite stage1_exp by (try exact RNG; apply no_dD_dot_plain; assumption). cbn [bind].
-    rewrite parse_mant_dot_ok by (try assumption; unfold min_i32, max_i32, two32, zlen in *; lia).
+    rewrite parse_mant_dot_ok by (try assumption; unfold min_i32, max_i32, two32, two63z, zlen in *; lia).
     rewrite <- STR. apply FIN. f_equal. unfold zlen in *. lia.
   - cbn [app]. rewrite dec_parse_unfold by apply app_cons_nonnil.
     rewrite stage1_exp by (try exact RNG; apply plain_no_dD, P1). cbn [bind].
     assert (r = []) by (unfold zlen in *; destruct r; [reflexivity|cbn [length] in *; lia]).
     rewrite H, app_nil_r in STR. rewrite <- STR.
-    rewrite parse_mant_nodot by exact P. apply FIN. f_equal.
+    rewrite parse_mant_nodot by (try exact P; exact RNG). apply FIN. f_equal.
     rewrite H in LEN. unfold zlen in *. cbn [length] in *. lia.
 Qed.
 
@@ -816,19 +862,35 @@ Proof.
     intros E; injection E as <-; apply new_decimal_wf.
 Qed.
 
-(* text with a fraction and an exponent: the exponent of the result is exactly e - len(fraction),
-   or the text is rejected; no int32 wrap *)
+(* text with a fraction and an exponent: the exponent of the result is exactly e - len(fraction)
+   when that fits int32 -- whatever the written exponent e, as long as ParseInt can read it
+   (int64) --, and the text is rejected otherwise; no int32 wrap *)
 Lemma parse_exponent_exact ip fp e : plain ip -> Forall (fun x => is_dD x = false) fp ->
-  min_i32 <= e <= max_i32 -> zlen fp < two63z - two31 ->
+  - two63z <= e < two63z -> zlen fp < two63z - two31 ->
   dec_parse (ip ++ c_dot :: fp ++ c_d :: zstr e) =
-  if e - zlen fp <? min_i32 then Err else parsed (ip ++ fp) (e - zlen fp).
+  if in_i32 (e - zlen fp) then parsed (ip ++ fp) (e - zlen fp) else Err.
 Proof.
   intros Pi Pf He Hl.
   replace (ip ++ c_dot :: fp ++ c_d :: zstr e) with ((ip ++ c_dot :: fp) ++ c_d :: zstr e)
     by (rewrite <- app_assoc; reflexivity).
   rewrite dec_parse_unfold by apply app_cons_nonnil.
-  rewrite stage1_exp; [|apply Forall_app; split; [apply plain_no_dD, Pi|constructor; [reflexivity|exact Pf]]|exact He].
+  rewrite stage1_exp64; [|apply Forall_app; split; [apply plain_no_dD, Pi|constructor; [reflexivity|exact Pf]]|exact He].
   cbn [bind]. apply parse_mant_dot; assumption.
+Qed.
+(* the same without a fraction part: the range check is made in this path too *)
+Lemma parse_exponent_exact_nofrac ip e : plain ip -> - two63z <= e < two63z ->
+  dec_parse (ip ++ c_d :: zstr e) = if in_i32 e then parsed ip e else Err.
+Proof.
+  intros Pi He. rewrite dec_parse_unfold by apply app_cons_nonnil.
+  rewrite stage1_exp64 by (try apply plain_no_dD, Pi; exact He). cbn [bind].
+  apply parse_mant_nodot_gen, Pi.
+Qed.
+(* a written exponent that does not fit int64 is an error, with or without a fraction *)
+Lemma parse_exponent_over64 m e : Forall (fun x => is_dD x = false) m ->
+  ~ (- two63z <= e < two63z) -> dec_parse (m ++ c_d :: zstr e) = Err.
+Proof.
+  intros Hm He. rewrite dec_parse_unfold by apply app_cons_nonnil.
+  rewrite stage1_exp_over by assumption. reflexivity.
 Qed.
 
 Lemma parsed_exponent str e d : parsed str e = Ok d -> min_i32 < e <= max_i32 -> coex_exp d = e.
